@@ -1,6 +1,8 @@
 use std::num::NonZeroUsize;
 use std::time::Duration;
 
+#[cfg(feature = "verif")]
+use crate::verif::clock as coarsetime;
 use coarsetime::Instant;
 
 use crate::network::{Coord, NetworkMessage, NetworkSender};
